@@ -102,7 +102,7 @@ class C13(Sim):
             "polyline split) and >= 1 observation")
     FAULT_KINDS = ["warm", "reject"]
     PROBES = ["polygon_input", "quad_input", "closed_surface", "bordered_surface", "multi_op_block", "second_block", "area_checked", "centre_checked",
-              "input_observed", "result_observed", "volume_block", "polyline_split", "face_centre_split_interior", "sdbet", "int_coordinates", "exception_leaves_block", "boundary_of_refined_volume", "non_list_rows", "boundary_data_carried_over", "other_block_in_between"]
+              "input_observed", "result_observed", "volume_block", "polyline_split", "face_centre_split_interior", "sdbet", "int_coordinates", "exception_leaves_block", "boundary_of_refined_volume", "non_list_rows", "boundary_data_carried_over", "other_block_in_between", "small_geometry"]
     QUICK_RUNS = 2500
     THOROUGH_RUNS = 250000
     BLOCK = 20
@@ -153,6 +153,11 @@ class C13(Sim):
             if rng.chance(0.3) and n > 4:
                 ed.append([1, n - 2])
             w["edges"] = ed
+        # absolute size of the geometry (a refinement is a refinement at any scale): small cells have determinants ~1e-9
+        k_ = rng.wchoice([1.0, 1e-3, 1e2], [6, 2, 1]) if kind == "tets" else (rng.wchoice([1.0, 1e-2, 1e2], [6, 1.5, 1]) if kind == "surface" and not w.get("int_coords") else 1.0)
+        if k_ != 1.0:
+            w["points"] = [[k_ * x for x in q] for q in w["points"]]
+            w["scale"] = k_
         w["flavour"] = rng.wchoice(["list", "tuple", "numpy"], [3, 1, 1.5])  # how the element rows are stored (from_arrays keeps numpy rows)
         return {"world": w, "max_steps": rng.randint(4, 16), "warm_p": rng.choice([0.0, 0.5, 1.0]), "max_ops": rng.randint(1, 4),
                 "ops_off": rng.subset(["triangulate_face", "split_face_as_fan", "triangulate", "loop", "3quads", "6", "cell_fan", "face_center", "sdbet"], 0.2),
@@ -181,6 +186,8 @@ class C13(Sim):
             d.edges += [tuple(e) for e in w["edges"]]
             self.cur = M.mesh.PolyLine(d)
         self.kind = w["kind"]
+        if w.get("scale", 1.0) < 1.0:
+            self.probes["small_geometry"] += 1
         self.editor = None       # open editing block
         self.block = None        # dict describing the open block (model side)
         self.input_obj = None    # object passed to the last closed block
